@@ -7,7 +7,7 @@ import copy
 import os
 import tempfile
 import numpy as np
-from .core import CTX, peek, is_lazy
+from .core import CTX, peek, is_lazy, deep_same
 from . import gen, model
 
 
@@ -20,6 +20,9 @@ def m_sel(rows, rs, cs, has_cs):
 
 def same_lens(a, b):
     return [len(r) for r in a] == [len(r) for r in b]
+
+
+_CUR = {"dtype": "int64"}     # element dtype of the program being interpreted (programs are single-typed)
 
 
 # observations: name -> (library function, model function | None when the model has no opinion)
@@ -52,12 +55,12 @@ OBS = {
     "iter": (lambda x, a: [q.tolist() for q in x], lambda r, a: [list(q) for q in r]),
     "ravel": (lambda x, a: x.ravel().tolist(), lambda r, a: [v for q in r for v in q]),
     "meta": (lambda x, a: (len(x), int(x.size), np.asarray(x.lengths).tolist(), np.asarray(x.shape[1]).tolist(), str(x.dtype) if x.size else "any"),
-             lambda r, a: (len(r), sum(len(q) for q in r), [len(q) for q in r], [len(q) for q in r], "int64" if sum(len(q) for q in r) else "any")),
+             lambda r, a: (len(r), sum(len(q) for q in r), [len(q) for q in r], [len(q) for q in r], _CUR["dtype"] if sum(len(q) for q in r) else "any")),
     "repr": (lambda x, a: repr(x), None),
     "str": (lambda x, a: str(x), None),
     "sum1": (lambda x, a: x.sum(axis=-1).tolist(), lambda r, a: [sum(q) for q in r]),
     "npsum1": (lambda x, a: np.sum(x, axis=-1).tolist(), lambda r, a: [sum(q) for q in r]),
-    "sumall": (lambda x, a: int(np.sum(x)), lambda r, a: sum(v for q in r for v in q)),
+    "sumall": (lambda x, a: np.sum(x), lambda r, a: sum(v for q in r for v in q)),
     "any1": (lambda x, a: x.any(axis=-1).tolist(), lambda r, a: [any(v != 0 for v in q) for q in r]),
     "max1": (lambda x, a: [v for v, l in zip(x.max(axis=-1).tolist(), np.asarray(x.lengths).tolist()) if l], lambda r, a: [max(q) for q in r if q]),
     "argmax1": (lambda x, a: [v for v, l in zip(x.argmax(axis=-1).tolist(), np.asarray(x.lengths).tolist()) if l], lambda r, a: [q.index(max(q)) for q in r if q]),
@@ -70,7 +73,7 @@ OBS = {
     "eqself": (lambda x, a: (x == x).tolist(), lambda r, a: [[True] * len(q) for q in r]),
     "add1": (lambda x, a: (x + np.int64(1)).tolist(), lambda r, a: [[v + 1 for v in q] for q in r]),
     "row": (lambda x, a: x[a].tolist(), lambda r, a: list(r[a])),
-    "elem": (lambda x, a: int(x[a[0], a[1]]), lambda r, a: r[a[0]][a[1]]),
+    "elem": (lambda x, a: x[a[0], a[1]].item(), lambda r, a: r[a[0]][a[1]]),
     "rowscol": (lambda x, a: x[list(a[0]), a[1]].tolist(), lambda r, a: [r[i][a[1]] for i in a[0]]),
     "ell": (lambda x, a: x[...].tolist(), lambda r, a: [list(q) for q in r]),
     "empty": (lambda x, a: x[()].tolist(), lambda r, a: [list(q) for q in r]),
@@ -94,9 +97,16 @@ OBS = {
 # observations after which the receiver is certainly materialised (used for hazard tracking; conservative)
 MATERIALISING = {"tolist", "iter", "ravel", "repr", "sum1", "npsum1", "sumall", "nonzero", "add1", "eqself", "cumsum", "sort", "diff", "zeros", "concatself", "astype", "save"}
 READ_OPS = [k for k in OBS]
+# observations whose result on float data (NaN, inf, -0.0, non-dyadic values) is defined element by element, hence exactly predictable
+FLOAT_OBS = ["tolist", "iter", "ravel", "meta", "repr", "str", "row", "elem", "rowscol", "ell", "empty", "maskidx", "subset", "padded", "nonzero", "add1", "sel", "rslice",
+             "getcol", "colcounts", "tonp", "astype", "concatself", "zeros", "diff", "save"]
+FLOAT_READS = FLOAT_OBS + ["sum1", "npsum1", "sumall", "any1", "eqself", "where", "max1", "sort", "unique"]     # fine as *inserted reads* (no model opinion needed)
+FLOAT_POOL = [0.1, 0.7, 1e17, 1.0, -2.5, 3.25, float("inf"), float("nan"), -0.0, 0.3, 123456.789, -1e-7, float("-inf"), 2.0]
 
 
 def obs_applicable(name, rows):
+    if name in ("cumsum", "equals") and any(isinstance(v, float) for q in rows for v in q):
+        return False        # rejected by design for floats / needs an int64 twin
     n = len(rows)
     lens = [len(r) for r in rows]
     tot = sum(lens)
@@ -142,6 +152,8 @@ def obs_arg(rng, name, rows):
                 rs = int(rs)
             has = rng.random() < 0.5
             cs = gen.gen_slice(rng, max(lens, default=0)) if has else None
+            if has and rng.random() < 0.3 and max(lens, default=0):
+                cs = rng.randint(-max(lens), max(lens) - 1)      # an integer column (refused by the model if some selected row is too short)
             try:
                 model.select_cells(lens, rs, cs, has)
                 return [rs, cs, has]
@@ -165,14 +177,17 @@ class _Track:
         self.bufs = set(bufs)           # buffers it may still be sharing while lazy
 
 
-def gen_program(rng, tier="quick", allow_hazard=False, nsteps=None, init_rows=None, n_obs=None):
+def gen_program(rng, tier="quick", allow_hazard=False, nsteps=None, init_rows=None, n_obs=None, dtype="int64", big=False):
     """-> case {"steps": [...], "hazard": bool}; the list model is executed while generating"""
-    lens, _ = gen.length_vector(rng, tier, maxrows=5 if tier == "quick" else 8, maxlen=5 if tier == "quick" else 8)
+    lens, _ = gen.length_vector(rng, tier, maxrows=5 if tier == "quick" else 8, maxlen=5 if tier == "quick" else 8, stratum="big" if big else None)
+    isf = dtype == "float64"
+    num = (lambda lo, hi: rng.choice(FLOAT_POOL)) if isf else (lambda lo, hi: rng.randint(lo, hi))
+    read_ops = FLOAT_OBS if isf else READ_OPS
     if init_rows is None:
-        init_rows = [[rng.randint(-20, 40) for _ in range(l)] for l in lens]
+        init_rows = [[num(-20, 40) for _ in range(l)] for l in lens]
     env = {"a0": copy.deepcopy(init_rows)}
     track = {"a0": _Track(0)}
-    steps = [{"op": "init", "v": "a0", "rows": copy.deepcopy(init_rows)}]
+    steps = [{"op": "init", "v": "a0", "rows": copy.deepcopy(init_rows), "dtype": dtype}]
     counter = [1]
     hazard = False
     nsteps = nsteps or rng.randint(2, 8 if tier == "quick" else 14)
@@ -198,7 +213,7 @@ def gen_program(rng, tier="quick", allow_hazard=False, nsteps=None, init_rows=No
     def add_obs(u, name=None):
         rows = env[u]
         for _ in range(8):
-            nm = name or rng.choice(READ_OPS)
+            nm = name or rng.choice(read_ops)
             if obs_applicable(nm, rows):
                 steps.append({"op": "obs", "u": u, "what": nm, "arg": obs_arg(rng, nm, rows)})
                 if nm in MATERIALISING:
@@ -208,6 +223,8 @@ def gen_program(rng, tier="quick", allow_hazard=False, nsteps=None, init_rows=No
 
     kinds = ["sel", "sel", "sel", "sel", "alias", "ufs", "neg", "ufcol", "ufra", "concat", "sort", "cumsum", "diff", "where", "zeros", "unique",
              "assign", "assign", "assign", "maskassign", "obs", "obs", "obs"]
+    if isf:
+        kinds = [k for k in kinds if k not in ("sort", "cumsum", "unique")] + ["ufcol", "ufcol", "ufcol"]
     guard = 0
     while len(steps) - 1 < nsteps and guard < 200:
         guard += 1
@@ -256,7 +273,7 @@ def gen_program(rng, tier="quick", allow_hazard=False, nsteps=None, init_rows=No
         elif kind == "ufcol":
             if n < 2:
                 continue
-            col = [rng.randint(0, 3) for _ in range(n)]
+            col = [num(0, 3) for _ in range(n)]
             side = rng.choice("LR")
             materialise(u)
             v = fresh()
@@ -288,8 +305,16 @@ def gen_program(rng, tier="quick", allow_hazard=False, nsteps=None, init_rows=No
         elif kind in ("sort", "cumsum", "diff", "zeros", "unique"):
             materialise(u)
             v = fresh()
-            env[v] = OBS[kind][1](U, None)
-            steps.append({"op": kind, "v": v, "u": u})
+            if kind == "diff":
+                nn = rng.choice([1, 1, 1, 2, 0])
+                cur = [list(r) for r in U]
+                for _ in range(nn):
+                    cur = [[b - c for c, b in zip(q[:-1], q[1:])] for q in cur]
+                env[v] = cur
+                steps.append({"op": "diff", "v": v, "u": u, "n": nn})
+            else:
+                env[v] = OBS[kind][1](U, None)
+                steps.append({"op": kind, "v": v, "u": u})
         elif kind in ("assign", "maskassign"):
             # hazard control (DESIGN 5, C10): a write into a buffer that a (maybe) lazy selection still shares
             tu = track[u]
@@ -341,15 +366,15 @@ def gen_program(rng, tier="quick", allow_hazard=False, nsteps=None, init_rows=No
                     vals = [x for r in env[w] for x in r]
                     materialise(w)
             if vk == "scalar":
-                st["val"] = rng.randint(100, 999)
+                st["val"] = num(100, 999)
                 vals = [st["val"]] * len(flat)
             elif vk == "flat":
-                vals = st["vals"] = [rng.randint(100, 999) for _ in flat]
+                vals = st["vals"] = [num(100, 999) for _ in flat]
             elif vk == "colvec":
-                col = st["col"] = [rng.randint(100, 999) for _ in cells]
+                col = st["col"] = [num(100, 999) for _ in cells]
                 vals = [col[k] for k, r in enumerate(cells) for _ in r]
             elif vk == "ragged":
-                vals = [rng.randint(100, 999) for _ in flat]
+                vals = [num(100, 999) for _ in flat]
                 st["rows"] = []
                 k = 0
                 for r in cells:
@@ -373,6 +398,7 @@ def gen_program(rng, tier="quick", allow_hazard=False, nsteps=None, init_rows=No
 def run_model(steps):
     env = {}
     obs = []
+    _CUR["dtype"] = steps[0].get("dtype", "int64") if steps else "int64"
     for si, st in enumerate(steps):
         op = st["op"]
         if op == "init":
@@ -396,7 +422,12 @@ def run_model(steps):
         elif op == "concat":
             U, W = env[st["u"]], env[st["w"]]
             env[st["v"]] = ([list(r) for r in U] + [list(r) for r in W]) if st["axis"] == 0 else [list(r) + list(q) for r, q in zip(U, W)]
-        elif op in ("sort", "cumsum", "diff", "zeros", "unique"):
+        elif op == "diff":
+            cur = [list(r) for r in env[st["u"]]]
+            for _ in range(st.get("n", 1)):
+                cur = [[b - c for c, b in zip(q[:-1], q[1:])] for q in cur]
+            env[st["v"]] = cur
+        elif op in ("sort", "cumsum", "zeros", "unique"):
             env[st["v"]] = OBS[op][1](env[st["u"]], None)
         elif op == "maskassign":
             for r in env[st["u"]]:
@@ -447,6 +478,8 @@ def run_lib(steps, mode="L", read_plan=None, purity=False, trace=None):
     def live_snapshot():
         return {v: peek(x) for v, x in env.items()}
 
+    DT = np.dtype(steps[0].get("dtype", "int64")) if steps else np.dtype("int64")
+    sc = DT.type
     for si, st in enumerate(steps):
         op = st["op"]
         new = None
@@ -455,7 +488,7 @@ def run_lib(steps, mode="L", read_plan=None, purity=False, trace=None):
                 if nm in st and st[nm] in env:
                     trace.append((op + ":" + nm, "lazy" if is_lazy(env[st[nm]]) else "materialised", ""))
         if op == "init":
-            flat = np.array([x for r in st["rows"] for x in r], dtype=np.int64)
+            flat = np.array([x for r in st["rows"] for x in r], dtype=DT)
             env[st["v"]] = RA(flat, [len(r) for r in st["rows"]])
             groups[st["v"]] = st["v"]
         elif op == "sel":
@@ -465,12 +498,12 @@ def run_lib(steps, mode="L", read_plan=None, purity=False, trace=None):
             groups[st["v"]] = groups[st["u"]]
         elif op == "ufs":
             uf = getattr(np, st["uf"])
-            c = np.int64(st["c"])
+            c = sc(st["c"])
             new = uf(env[st["u"]], c) if st["side"] == "R" else uf(c, env[st["u"]])
         elif op == "neg":
             new = -env[st["u"]]
         elif op == "ufcol":
-            col = np.array(st["col"], dtype=np.int64).reshape(-1, 1)
+            col = np.array(st["col"], dtype=DT).reshape(-1, 1)
             new = env[st["u"]] - col if st["side"] == "R" else col - env[st["u"]]
         elif op == "ufra":
             new = env[st["u"]] - env[st["w"]]
@@ -483,7 +516,7 @@ def run_lib(steps, mode="L", read_plan=None, purity=False, trace=None):
         elif op == "cumsum":
             new = np.cumsum(env[st["u"]], axis=-1)
         elif op == "diff":
-            new = np.diff(env[st["u"]], axis=-1)
+            new = np.diff(env[st["u"]], n=st.get("n", 1), axis=-1)
         elif op == "zeros":
             new = np.zeros_like(env[st["u"]])
         elif op == "unique":
@@ -503,11 +536,11 @@ def run_lib(steps, mode="L", read_plan=None, purity=False, trace=None):
                 if vk == "scalar":
                     value = st["val"]
                 elif vk == "flat":
-                    value = np.array(st["vals"], dtype=np.int64)
+                    value = np.array(st["vals"], dtype=DT)
                 elif vk == "colvec":
-                    value = np.array(st["col"], dtype=np.int64).reshape(-1, 1)
+                    value = np.array(st["col"], dtype=DT).reshape(-1, 1)
                 elif vk == "ragged":
-                    value = RA(np.array([x for r in st["rows"] for x in r], dtype=np.int64), [len(r) for r in st["rows"]])
+                    value = RA(np.array([x for r in st["rows"] for x in r], dtype=DT), [len(r) for r in st["rows"]])
                 else:
                     value = env[st["w"]]
                 tgt[idx] = value
@@ -521,8 +554,8 @@ def run_lib(steps, mode="L", read_plan=None, purity=False, trace=None):
             if purity:
                 after = live_snapshot()
                 CTX.tick("purity-tap")
-                if after != before:
-                    breaches.append((si, st["what"], [v for v in before if before[v] != after.get(v)]))
+                if not deep_same(after, before):
+                    breaches.append((si, st["what"], [v for v in before if not deep_same(before[v], after.get(v))]))
         if new is not None:
             if mode == "F":
                 new = fresh_copy(new)
@@ -536,7 +569,7 @@ def run_lib(steps, mode="L", read_plan=None, purity=False, trace=None):
                     if purity:
                         after = live_snapshot()
                         CTX.tick("purity-tap")
-                        if after != before:
-                            breaches.append((si, name, [w for w in before if before[w] != after.get(w)]))
+                        if not deep_same(after, before):
+                            breaches.append((si, name, [w for w in before if not deep_same(before[w], after.get(w))]))
     final = {v: x.tolist() for v, x in env.items()}
     return final, obs, extra, breaches, hazard_seen
